@@ -372,6 +372,28 @@ def run(ctx, anchors=None):
              "the pane lists the commitment description from index m_i (the step Iterate() performs next)",
              "the pane lists the whole commitment description on every refresh: after k steps the first k `Branch:` lines are still shown as pending although the right column already shows i: k")
 
+    # ---- R12.10 the script pane starts at the operation the next step executes: the iterator handed to the pane printer is the
+    # session's program counter itself (directly, or through a local that is set from it and never written or lent out by
+    # non-const reference in between).
+    ctx.rule("R12.10", "the script pane is decoded from the session's program counter")
+    n1210 = 0
+    for f in sorted(fb.funcs.values(), key=lambda f_: f_.id):
+        if f.body is None or f is sv_ or not f.file.startswith(("functions.", "btcdeb.cpp", "instance.")):
+            continue
+        for n in f.nodes():
+            if n["k"] == "call" and n.get("cid") == sv_.id:
+                its = [a for a, p_ in zip(n["args"], sv_.params) if "const_iterator" in (p_.get("ty") or "") or "const unsigned char *" in (p_.get("ty") or "")]
+                if len(its) != 1:
+                    raise AnalysisBroken("R12.10: svprintscripts no longer takes exactly one script iterator")
+                n1210 += 1
+                ctx.site()
+                e = astq.expand(f, its[0])
+                is_pc = e is not None and e.get("k") == "mem" and e.get("n") == "pc"
+                ctx.inst(is_pc, "R12.10", "pane-from-program-counter@" + f.name, f.loc(n), "the pane is decoded from `%s`" % astq.estr(e)[:30],
+                         "%s hands svprintscripts `%s`, which is not (only) the session's pc at that point - it was reassigned or advanced by a decoder in between: the pane starts at another "
+                         "operation than the one the next step executes (pending operations are missing from it)" % (f.name, astq.estr(e)[:40]))
+    ctx.floor("R12.10", n1210, 1, "calls of the pane printer")
+
     # ---- R12.8 the numbered listing shows every operation in full (it is "the exact decoding"): a fixed-size buffer that
     # receives the hex rendering of a push must hold the largest legal push - 2 * MAX_SCRIPT_ELEMENT_SIZE digits - plus whatever
     # precedes it in that buffer and the terminator. (The two-column pane abbreviates long values on purpose; it is not judged.)
@@ -416,6 +438,7 @@ def run(ctx, anchors=None):
 
 
 MUTANTS = [
+    dict(name="pane-iterator-reused-for-the-redeem-script-scan", file="functions.cpp", find="            CScript::const_iterator it = env->script.begin();\n            opcodetype opcode;\n            valtype vchPushValue, p2sh_script_payload;", replace="            it = env->script.begin();\n            opcodetype opcode;\n            valtype vchPushValue, p2sh_script_payload;", expect=["R12.10:pane-from-program-counter@print_dualstack"]),
     dict(name="pane-lists-finished-commitment-steps", file="functions.cpp", find="        for (size_t k = tce->m_i; k < desc.size(); ++k) {", replace="        for (size_t k = 0; k < desc.size(); ++k) {", expect=["R12.9:commitment-section-from-pending-step"]),
     dict(name="listing-buffer-too-small", file="btcdeb.cpp", find="    char buf[16 + 2 * MAX_SCRIPT_ELEMENT_SIZE];", replace="    char buf[1024];", expect=["R12.8:listing-buffer-holds-a-maximal-push"]),
     dict(name="commitment-counted-under-narrower-guard", file="btcdeb.cpp", find="    } else if (env->sigversion == SigVersion::TAPSCRIPT) {\n        // add commitment phase",
